@@ -26,7 +26,7 @@ na = {
  "C17": "pure function of the literal spelling",
  "C18": "pure functions over value pairs and triples",
 }
-pending = {p: "claimed in DESIGN.md but its check is not built yet at this commit; it moves to checks[] when the check exists" for p in ["C06"]}
+pending = {}
 na.update(pending)
 import os, sys
 extra = json.load(open(os.path.join(os.path.dirname(__file__), "claimed_extra.json"))) if os.path.exists(os.path.join(os.path.dirname(__file__), "claimed_extra.json")) else {}
